@@ -148,7 +148,8 @@ def _decide(agent, markets):
                 # other steps of this run use solver-chosen prices: keep the role "price" proxied throughout
                 p = g.const(pbt.get(str(t), pbt.get("default")))
             elif "price_rel" in menu:
-                p = g.const(m.get_market_price() + (-menu["price_rel"] if is_buy else menu["price_rel"]))
+                rel = (per_agent or {}).get("price_rel", menu["price_rel"])
+                p = g.const(m.get_market_price() + (-rel if is_buy else rel))
             elif "price_fixed" in menu:
                 p = menu["price_fixed"]
             elif "price_set" in menu:
